@@ -41,70 +41,110 @@ Proof. reflexivity. Qed.
 
 (* ------------------------------------------------------------------ "about id j" *)
 
-(* every event of a delivery of id j is about j; every registry change concerns key j only *)
+(* every event of a delivery of id j is about j; every registry change concerns key j only
+   (with retries a delivery of j may also RE-register j, and re-send it) *)
 Definition ev_about (j : N) (e : event) : Prop :=
   match e with
-  | EvIssued _ | EvSent _ => False
-  | EvIface i _ | EvApp i _ _ | EvTop i | EvLib i _ _ _ | EvPong i => i = j
+  | EvIssued _ => False
+  | EvSent i | EvIface i _ | EvApp i _ _ | EvTop i | EvLib i _ _ _ | EvPong i => i = j
   end.
 
-(* st' differs from st at most by having lost key j somewhere *)
-Record shrinks (j : N) (st st' : state) : Prop := {
-  sh_next : next st' = next st;
-  sh_app : forall i, lookup i (app st') = if N.eqb i j then lookup i (app st') else lookup i (app st);
-  sh_regs : forall l i, lookup i (regs st' l) =
-                        if N.eqb i j then lookup i (regs st' l) else lookup i (regs st l);
-  sh_app_j : forall e, lookup j (app st') = Some e -> lookup j (app st) = Some e;
-  sh_regs_j : forall l e, lookup j (regs st' l) = Some e -> lookup j (regs st l) = Some e
+(* st' differs from st at most at key j *)
+Record touch (j : N) (st st' : state) : Prop := {
+  to_next : next st' = next st;
+  to_app : forall i, i <> j -> lookup i (app st') = lookup i (app st);
+  to_regs : forall l i, i <> j -> lookup i (regs st' l) = lookup i (regs st l)
 }.
 
-Lemma shrinks_refl j st : shrinks j st st.
+Lemma touch_refl j st : touch j st st.
+Proof. constructor; auto. Qed.
+
+Lemma touch_trans j a b c : touch j a b -> touch j b c -> touch j a c.
 Proof.
-  constructor; auto; intros; destruct (N.eqb i j); reflexivity.
+  intros H1 H2. constructor.
+  - rewrite (to_next _ _ _ H2). apply (to_next _ _ _ H1).
+  - intros i Hi. rewrite (to_app _ _ _ H2 i Hi). apply (to_app _ _ _ H1 i Hi).
+  - intros l i Hi. rewrite (to_regs _ _ _ H2 l i Hi). apply (to_regs _ _ _ H1 l i Hi).
 Qed.
+
+Lemma touch_app_remove j st : touch j st (set_app st (remove j (app st))).
+Proof.
+  constructor; cbn [set_app next app regs]; auto.
+  intros i Hi. rewrite lookup_remove. apply N.eqb_neq in Hi. rewrite Hi. reflexivity.
+Qed.
+
+Lemma touch_app_cons j st e : touch j st (set_app st ((j, e) :: app st)).
+Proof.
+  constructor; cbn [set_app next app regs]; auto.
+  intros i Hi. rewrite lookup_cons. apply N.eqb_neq in Hi. rewrite Hi. reflexivity.
+Qed.
+
+Lemma touch_reg_remove j st l : touch j st (set_reg st l (remove j (regs st l))).
+Proof.
+  constructor; cbn [set_reg next app regs]; auto.
+  intros l' i Hi. destruct (layer_eqb l l') eqn:E; [|reflexivity].
+  apply layer_eqb_eq in E. subst l'. rewrite lookup_remove. apply N.eqb_neq in Hi. rewrite Hi.
+  reflexivity.
+Qed.
+
+Lemma touch_reg_cons j st l e : touch j st (set_reg st l ((j, e) :: regs st l)).
+Proof.
+  constructor; cbn [set_reg next app regs]; auto.
+  intros l' i Hi. destruct (layer_eqb l l') eqn:E; [|reflexivity].
+  apply layer_eqb_eq in E. subst l'. rewrite lookup_cons. apply N.eqb_neq in Hi. rewrite Hi.
+  reflexivity.
+Qed.
+
+(* key j occurs in some registry *)
+Definition present (st : state) (j : N) : Prop :=
+  lookup j (app st) <> None \/ exists l, lookup j (regs st l) <> None.
+
+(* a delivery of j touches key j only, and cannot make j appear out of nothing *)
+Record shrinks (j : N) (st st' : state) : Prop := {
+  sh_touch : touch j st st';
+  sh_present : present st' j -> present st j
+}.
+
+Lemma sh_next j st st' : shrinks j st st' -> next st' = next st.
+Proof. intro H. apply (to_next _ _ _ (sh_touch _ _ _ H)). Qed.
+
+Lemma shrinks_refl j st : shrinks j st st.
+Proof. constructor; [apply touch_refl|auto]. Qed.
 
 Lemma shrinks_other j st st' :
   shrinks j st st' -> forall i, i <> j ->
   lookup i (app st') = lookup i (app st) /\ forall l, lookup i (regs st' l) = lookup i (regs st l).
 Proof.
-  intros H i Hi. apply N.eqb_neq in Hi. split.
-  - rewrite (sh_app _ _ _ H i), Hi. reflexivity.
-  - intro l. rewrite (sh_regs _ _ _ H l i), Hi. reflexivity.
+  intros H i Hi. split.
+  - apply (to_app _ _ _ (sh_touch _ _ _ H) i Hi).
+  - intro l. apply (to_regs _ _ _ (sh_touch _ _ _ H) l i Hi).
 Qed.
 
 Lemma shrinks_trans j a b c : shrinks j a b -> shrinks j b c -> shrinks j a c.
 Proof.
   intros H1 H2. constructor.
-  - rewrite (sh_next _ _ _ H2). apply (sh_next _ _ _ H1).
-  - intro i. destruct (N.eqb i j) eqn:E; [reflexivity|].
-    apply N.eqb_neq in E.
-    destruct (shrinks_other _ _ _ H1 i E) as [A1 _], (shrinks_other _ _ _ H2 i E) as [A2 _].
-    congruence.
-  - intros l i. destruct (N.eqb i j) eqn:E; [reflexivity|].
-    apply N.eqb_neq in E.
-    destruct (shrinks_other _ _ _ H1 i E) as [_ A1], (shrinks_other _ _ _ H2 i E) as [_ A2].
-    rewrite A2, A1. reflexivity.
-  - intros e He. apply (sh_app_j _ _ _ H1), (sh_app_j _ _ _ H2), He.
-  - intros l e He. apply (sh_regs_j _ _ _ H1), (sh_regs_j _ _ _ H2), He.
+  - eapply touch_trans; [apply (sh_touch _ _ _ H1)|apply (sh_touch _ _ _ H2)].
+  - intro P. apply (sh_present _ _ _ H1), (sh_present _ _ _ H2), P.
 Qed.
 
-Lemma shrinks_set_app j st : shrinks j st (set_app st (remove j (app st))).
+Lemma shrinks_of_present j st st' : present st j -> touch j st st' -> shrinks j st st'.
+Proof. intros P T. constructor; [exact T|intros _; exact P]. Qed.
+
+Lemma shrinks_app_remove j st : shrinks j st (set_app st (remove j (app st))).
 Proof.
-  constructor; cbn [set_app next app regs]; auto.
-  - intro i. rewrite lookup_remove. destruct (N.eqb i j); reflexivity.
-  - intros l i. destruct (N.eqb i j); reflexivity.
-  - intros e. rewrite lookup_remove, N.eqb_refl. discriminate.
+  constructor; [apply touch_app_remove|].
+  intros [H|[l H]].
+  - exfalso. apply H. cbn [set_app app]. rewrite lookup_remove, N.eqb_refl. reflexivity.
+  - right. exists l. exact H.
 Qed.
 
-Lemma shrinks_set_reg j st l : shrinks j st (set_reg st l (remove j (regs st l))).
+Lemma shrinks_reg_remove j st l : shrinks j st (set_reg st l (remove j (regs st l))).
 Proof.
-  constructor; cbn [set_reg next app regs]; auto.
-  - intro i. destruct (N.eqb i j); reflexivity.
-  - intros l' i. destruct (layer_eqb l l') eqn:E.
-    + apply layer_eqb_eq in E. subst l'. rewrite lookup_remove. destruct (N.eqb i j); reflexivity.
-    + destruct (N.eqb i j); reflexivity.
-  - intros l' e. destruct (layer_eqb l l') eqn:E; [|auto].
-    rewrite lookup_remove, N.eqb_refl. discriminate.
+  constructor; [apply touch_reg_remove|].
+  intros [H|[l' H]].
+  - left. exact H.
+  - right. exists l'. rewrite regs_set_reg in H. destruct (layer_eqb l l') eqn:E; [|exact H].
+    exfalso. apply H. rewrite lookup_remove, N.eqb_refl. reflexivity.
 Qed.
 
 (* the combined fact proved for every sub-function of a delivery *)
@@ -122,15 +162,52 @@ Proof.
   - apply Forall_app; split; assumption.
 Qed.
 
+Lemma reissue_touch c st j r hs he rt :
+  touch j st (fst (reissue c st j r hs he rt)) /\
+  Forall (ev_about j) (snd (reissue c st j r hs he rt)).
+Proof.
+  unfold reissue. destruct (rorigin r) as [k|lk]; [|split; [apply touch_refl|constructor]].
+  pose proof (touch_app_cons j st (mkentry r hs he rt)) as T0.
+  destruct (app_route c k) as [l s e|l|]; cbn [fst snd].
+  - split; [|repeat constructor].
+    eapply touch_trans; [exact T0|]. apply touch_reg_cons.
+  - split; [exact T0|repeat constructor].
+  - split; [exact T0|constructor].
+Qed.
+
 Lemma to_interface_good c st j t : good j st (to_interface c st j t).
 Proof.
   unfold to_interface.
-  destruct (if iconsumes c t then lookup j (app st) else None) as [e|].
-  - split; cbn [fst snd].
-    + apply shrinks_set_app.
-    + constructor; [reflexivity|].
-      destruct t; try constructor; destruct (ehs e), (ehe e); repeat constructor.
-  - split; cbn [fst snd]; [apply shrinks_refl|repeat constructor].
+  destruct (if iconsumes c t then lookup j (app st) else None) as [e|] eqn:E;
+    [|split; cbn [fst snd]; [apply shrinks_refl|repeat constructor]].
+  assert (He : lookup j (app st) = Some e) by (destruct (iconsumes c t); [exact E|discriminate]).
+  assert (P : present st j) by (left; rewrite He; discriminate).
+  assert (G0 : good j st (set_app st (remove j (app st)), [EvIface j t])).
+  { split; cbn [fst snd]; [apply shrinks_app_remove|repeat constructor]. }
+  destruct (which_of t) as [w|]; [|exact G0].
+  destruct (cb_flag (ehs e) (ehe e) w); [|exact G0].
+  set (st_d := if late_delete_iface c then st else set_app st (remove j (app st))).
+  assert (Td : touch j st st_d).
+  { unfold st_d. destruct (late_delete_iface c); [apply touch_refl|apply touch_app_remove]. }
+  assert (G2 : forall r2, r2 = match next_retry (ehs e) (ehe e) (ert e) w with
+                                | Some rt' => reissue c st_d j (ereq e) (ehs e) (ehe e) rt'
+                                | None => (st_d, [])
+                                end ->
+                          touch j st (fst r2) /\ Forall (ev_about j) (snd r2)).
+  { intros r2 ->. destruct (next_retry (ehs e) (ehe e) (ert e) w) as [rt'|].
+    - destruct (reissue_touch c st_d j (ereq e) (ehs e) (ehe e) rt') as [T F].
+      split; [eapply touch_trans; eassumption|exact F].
+    - split; [exact Td|constructor]. }
+  destruct (match next_retry (ehs e) (ehe e) (ert e) w with
+            | Some rt' => reissue c st_d j (ereq e) (ehs e) (ehe e) rt'
+            | None => (st_d, [])
+            end) as [st2 ev2] eqn:E2.
+  destruct (G2 (st2, ev2) eq_refl) as [T2 F2]. cbn [fst snd] in T2, F2.
+  split; cbn [fst snd].
+  - apply shrinks_of_present; [exact P|].
+    destruct (late_delete_iface c); [|exact T2].
+    eapply touch_trans; [exact T2|apply touch_app_remove].
+  - constructor; [reflexivity|]. constructor; [reflexivity|exact F2].
 Qed.
 
 Lemma fire_good c st j e w : good j st (fire c st j e w).
@@ -145,17 +222,31 @@ Lemma try_layer_good c st l j t r : try_layer c st l j t = Some r -> good j st r
 Proof.
   unfold try_layer. destruct (consumes c t); [|discriminate].
   destruct (lookup j (regs st l)) as [e|]; [|discriminate].
+  set (st_d := if late_delete c then st else set_reg st l (remove j (regs st l))).
+  assert (Gd : good j st (st_d, [])).
+  { split; [|constructor]. unfold st_d. cbn [fst].
+    destruct (late_delete c); [apply shrinks_refl|apply shrinks_reg_remove]. }
+  assert (F : forall w, good j st (fire c st_d j e w)).
+  { intro w. pose proof (fire_good c st_d j e w) as G2.
+    destruct (fire c st_d j e w) as [s2 e2].
+    exact (good_seq _ _ _ _ _ _ Gd G2). }
+  assert (G : good j st (match t with
+                         | TResult => if ehs e then fire c st_d j e Success else (st_d, [])
+                         | TError => if ehe e then fire c st_d j e Error else (st_d, [])
+                         | _ => (st_d, [])
+                         end)).
+  { destruct t; try exact Gd.
+    - destruct (ehs e); [apply F|exact Gd].
+    - destruct (ehe e); [apply F|exact Gd]. }
+  destruct (match t with
+            | TResult => if ehs e then fire c st_d j e Success else (st_d, [])
+            | TError => if ehe e then fire c st_d j e Error else (st_d, [])
+            | _ => (st_d, [])
+            end) as [st2 ev].
   intro H. apply Some_inj in H. subst r.
-  pose proof (shrinks_set_reg j st l) as S1.
-  set (st1 := set_reg st l (remove j (regs st l))) in *.
-  assert (G1 : good j st (st1, [])) by (split; [exact S1|constructor]).
-  assert (F : forall w, good j st (fire c st1 j e w)).
-  { intro w. pose proof (fire_good c st1 j e w) as G2.
-    destruct (fire c st1 j e w) as [s2 e2].
-    exact (good_seq _ _ _ _ _ _ G1 G2). }
-  destruct t; try exact G1.
-  - destruct (ehs e); [apply F|exact G1].
-  - destruct (ehe e); [apply F|exact G1].
+  destruct (late_delete c); [|exact G].
+  destruct G as [S Fa]. split; cbn [fst snd] in *; [|exact Fa].
+  eapply shrinks_trans; [exact S|apply shrinks_reg_remove].
 Qed.
 
 Lemma handler_good c st l j t sh : good j st (handler c st l j t sh).
@@ -324,17 +415,18 @@ Qed.
 
 Lemma shrinks_inv j st st' : shrinks j st st' -> inv st -> inv st'.
 Proof.
-  intros S [Ia Ir]. split.
-  - intros i e H. rewrite (sh_next _ _ _ S).
-    destruct (N.eqb i j) eqn:E.
-    + apply N.eqb_eq in E. subst i. apply (sh_app_j _ _ _ S) in H. eapply Ia; eassumption.
-    + apply N.eqb_neq in E. destruct (shrinks_other _ _ _ S i E) as [A _].
-      rewrite A in H. eapply Ia; eassumption.
-  - intros l i e H. rewrite (sh_next _ _ _ S).
-    destruct (N.eqb i j) eqn:E.
-    + apply N.eqb_eq in E. subst i. apply (sh_regs_j _ _ _ S) in H. eapply Ir; eassumption.
-    + apply N.eqb_neq in E. destruct (shrinks_other _ _ _ S i E) as [_ A].
-      rewrite A in H. eapply Ir; eassumption.
+  intros S [Ia Ir].
+  assert (Pj : present st' j -> (j < next st)%N).
+  { intro P. apply (sh_present _ _ _ S) in P. destruct P as [H|[l H]].
+    - destruct (lookup j (app st)) as [e|] eqn:E; [eapply Ia; eassumption|contradiction].
+    - destruct (lookup j (regs st l)) as [e|] eqn:E; [eapply Ir; eassumption|contradiction]. }
+  split.
+  - intros i e H. rewrite (sh_next _ _ _ S). destruct (N.eq_dec i j) as [->|Hi].
+    + apply Pj. left. rewrite H. discriminate.
+    + destruct (shrinks_other _ _ _ S i Hi) as [A _]. rewrite A in H. eapply Ia; eassumption.
+  - intros l i e H. rewrite (sh_next _ _ _ S). destruct (N.eq_dec i j) as [->|Hi].
+    + apply Pj. right. exists l. rewrite H. discriminate.
+    + destruct (shrinks_other _ _ _ S i Hi) as [_ A]. rewrite A in H. eapply Ir; eassumption.
 Qed.
 
 (* a request step: adds exactly key [next st], bumps the counter *)
@@ -344,19 +436,16 @@ Record grows (st st' : state) : Prop := {
   gr_regs : forall l i, i <> next st -> lookup i (regs st' l) = lookup i (regs st l)
 }.
 
-Lemma app_request_grows c st k hs he : grows st (fst (app_request c st k hs he)).
+Lemma app_request_grows c st k hs he rt : grows st (fst (app_request c st k hs he rt)).
 Proof.
-  unfold app_request. destruct (app_route c k) as [l s e| l |]; cbn [fst].
-  - constructor; cbn [set_reg next app regs].
-    + reflexivity.
-    + intros i Hi. rewrite lookup_cons. apply N.eqb_neq in Hi. rewrite Hi. reflexivity.
-    + intros l' i Hi. destruct (layer_eqb l l') eqn:E; [|reflexivity].
-      apply layer_eqb_eq in E. subst l'.
-      rewrite lookup_cons. apply N.eqb_neq in Hi. rewrite Hi. reflexivity.
-  - constructor; cbn [next app regs]; auto.
-    intros i Hi. rewrite lookup_cons. apply N.eqb_neq in Hi. rewrite Hi. reflexivity.
-  - constructor; cbn [next app regs]; auto.
-    intros i Hi. rewrite lookup_cons. apply N.eqb_neq in Hi. rewrite Hi. reflexivity.
+  unfold app_request.
+  set (st1 := mkstate (N.succ (next st)) (app st) (regs st)).
+  destruct (reissue_touch c st1 (next st) (mkreq (next st) (OApp k)) hs he rt) as [T _].
+  destruct (reissue c st1 (next st) (mkreq (next st) (OApp k)) hs he rt) as [st2 ev].
+  cbn [fst] in *. constructor.
+  - rewrite (to_next _ _ _ T). reflexivity.
+  - intros i Hi. rewrite (to_app _ _ _ T i Hi). reflexivity.
+  - intros l i Hi. rewrite (to_regs _ _ _ T l i Hi). reflexivity.
 Qed.
 
 Lemma lib_request_grows c st lk : grows st (fst (lib_request c st lk)).
@@ -391,10 +480,13 @@ Proof.
   destruct e; try contradiction; split; reflexivity.
 Qed.
 
-Lemma app_request_events c st k hs he :
+Lemma app_request_events c st k hs he rt :
   Forall (fun e => match e with EvIssued _ | EvSent _ => True | _ => False end)
-         (snd (app_request c st k hs he)).
-Proof. unfold app_request. destruct (app_route c k); cbn [snd]; repeat constructor. Qed.
+         (snd (app_request c st k hs he rt)).
+Proof.
+  unfold app_request, reissue. cbn [rorigin].
+  destruct (app_route c k); cbn [snd]; repeat constructor.
+Qed.
 
 Lemma lib_request_events c st lk :
   Forall (fun e => match e with EvIssued _ | EvSent _ => True | _ => False end)
@@ -403,7 +495,7 @@ Proof. unfold lib_request. destruct (lib_route c lk) as [l [s e]]; cbn [snd]; re
 
 Lemma step_inv c st o : inv st -> inv (fst (step c st o)).
 Proof.
-  intro I. destruct o as [k hs he|lk|i t sh|i]; cbn [step].
+  intro I. destruct o as [k hs he rt|lk|i t sh|i]; cbn [step].
   - eapply grows_inv; [apply app_request_grows|auto|exact I].
   - eapply grows_inv; [apply lib_request_grows|auto|exact I].
   - eapply shrinks_inv; [apply deliver_good|exact I].
@@ -449,8 +541,8 @@ Lemma dead_step c st o i :
   dead (fst (step c st o)) i /\
   app_cbs i (snd (step c st o)) = [] /\ lib_cbs i (snd (step c st o)) = [].
 Proof.
-  intros [Hlt [Ha Hr]]. destruct o as [k hs he|lk|j t sh|j]; cbn [step].
-  - pose proof (app_request_grows c st k hs he) as G. split.
+  intros [Hlt [Ha Hr]]. destruct o as [k hs he rt|lk|j t sh|j]; cbn [step].
+  - pose proof (app_request_grows c st k hs he rt) as G. split.
     + assert (Hi : i <> next st) by lia. split; [rewrite (gr_next _ _ G); lia|]. split.
       * rewrite (gr_app _ _ G i Hi). exact Ha.
       * intro l. rewrite (gr_regs _ _ G l i Hi). apply Hr.
@@ -485,8 +577,8 @@ Qed.
 
 Lemma next_mono_step c st o : (next st <= next (fst (step c st o)))%N.
 Proof.
-  destruct o as [k hs he|lk|j t sh|j]; cbn [step].
-  - rewrite (gr_next _ _ (app_request_grows c st k hs he)). lia.
+  destruct o as [k hs he rt|lk|j t sh|j]; cbn [step].
+  - rewrite (gr_next _ _ (app_request_grows c st k hs he rt)). lia.
   - rewrite (gr_next _ _ (lib_request_grows c st lk)). lia.
   - destruct (deliver_good c st j t sh) as [S _]. rewrite (sh_next _ _ _ S). lia.
   - cbn [fst]. lia.
@@ -501,7 +593,7 @@ Qed.
 Lemma step_events_no_cb_unreg c st o i :
   unregistered st i -> app_cbs i (snd (step c st o)) = [] /\ lib_cbs i (snd (step c st o)) = [].
 Proof.
-  intro U. destruct o as [k hs he|lk|j t sh|j]; cbn [step].
+  intro U. destruct o as [k hs he rt|lk|j t sh|j]; cbn [step].
   - apply request_events_no_cb, app_request_events.
   - apply request_events_no_cb, lib_request_events.
   - destruct (N.eq_dec i j) as [<-|Hij].
@@ -539,6 +631,9 @@ Qed.
 
 (* ------------------------------------------------------------------ pending application requests *)
 
+Lemma expected_seq_none i hs he r h : expected_seq i hs he r None h = [].
+Proof. induction h as [|o h IH]; [reflexivity|]. destruct o; cbn [expected_seq]; exact IH. Qed.
+
 Section Pending.
   Variable c : cfg.
   Variable i : N.
@@ -548,20 +643,35 @@ Section Pending.
 
   Let r := mkreq i (OApp k).
 
-  Definition pending (st : state) : Prop :=
+  Definition pending (rt : retry) (st : state) : Prop :=
     (i < next st)%N /\
-    lookup i (app st) = Some (mkentry r hs he) /\
-    lookup i (regs st L) = Some (mkentry r true true) /\
+    lookup i (app st) = Some (mkentry r hs he rt) /\
+    lookup i (regs st L) = Some (mkentry r true true no_retry) /\
     forall l, l <> L -> lookup i (regs st l) = None.
 
-  Definition cb_events (t : ityp) : list event :=
-    match t with
-    | TResult => if hs then [EvApp i Success r] else []
-    | TError => if he then [EvApp i Error r] else []
-    | _ => []
+  (* what the first reply to a pending request produces: the entity at the interface layer, the
+     callback (if given), and -- if that callback retries -- the same stanza going down again *)
+  Definition reply_events (rt : retry) (t : ityp) : list event :=
+    EvIface i t ::
+    match which_of t with
+    | Some w =>
+      if cb_flag hs he w then
+        EvApp i w r :: match next_retry hs he rt w with Some _ => [EvSent i] | None => [] end
+      else []
+    | None => []
     end.
 
+  Definition after_reply (rt : retry) (t : ityp) : option retry :=
+    match which_of t with Some w => next_retry hs he rt w | None => None end.
+
+  (* pending again (the callback retried) or gone from every registry *)
+  Definition settled (o : option retry) (st : state) : Prop :=
+    match o with Some rt' => pending rt' st | None => dead st i end.
+
   Hypothesis Hstrict : strict_reply c = true.
+  Hypothesis Hlate : late_delete c = false.
+  Hypothesis Hlatei : late_delete_iface c = false.
+  Hypothesis HR : app_route c k = RReg L true true.
   Hypothesis HL : in_proto L = true.
   Hypothesis Hsilent :
     forallb (fun l' => layer_eqb l' L ||
@@ -570,6 +680,13 @@ Section Pending.
 
   Lemma L_not_axolotl : L <> LCtl /\ L <> LSend /\ L <> LRecv.
   Proof. destruct L; cbn in HL; try discriminate; repeat split; discriminate. Qed.
+
+  Lemma settled_others o st : settled o st -> forall l, l <> L -> lookup i (regs st l) = None.
+  Proof.
+    destruct o as [rt'|]; cbn [settled].
+    - intros [_ [_ [_ Ho]]]. exact Ho.
+    - intros [_ [_ Hr]] l _. apply Hr.
+  Qed.
 
   Lemma hsilent_handler st l t :
     is_reply t = true -> In l proto_order -> l <> L ->
@@ -597,60 +714,96 @@ Section Pending.
     - intro Hin. apply HnL. right. exact Hin.
   Qed.
 
-  Lemma try_layer_pending st t :
-    pending st -> is_reply t = true ->
-    exists st', try_layer c st L i t = Some (st', EvIface i t :: cb_events t) /\ dead st' i.
+  (* the first reply: entry removed BEFORE the dispatch at both levels, so a retry issued from
+     inside the callback re-registers the id at both levels and stays registered *)
+  Lemma try_layer_pending st rt t :
+    pending rt st -> is_reply t = true ->
+    exists st', try_layer c st L i t = Some (st', reply_events rt t) /\
+                settled (after_reply rt t) st'.
   Proof.
     intros [Hlt [Ha [Hr Ho]]] Ht.
     set (st1 := set_reg st L (remove i (regs st L))).
-    assert (Ha1 : lookup i (app st1) = Some (mkentry r hs he)) by exact Ha.
-    assert (IC : iconsumes c t = true).
-    { unfold iconsumes. destruct (strict_iface c); [exact Ht|reflexivity]. }
-    exists (set_app st1 (remove i (app st1))). split.
-    - unfold try_layer, consumes. rewrite Hstrict, Ht, Hr. fold st1.
-      cbn [ehs ehe]. unfold fire. cbn [ereq rorigin r].
-      destruct t; try discriminate; cbn [typ_of]; unfold to_interface;
-        rewrite IC, Ha1; reflexivity.
-    - split; [exact Hlt|]. split.
-      + cbn [set_app app]. rewrite lookup_remove, N.eqb_refl. reflexivity.
-      + intro l. cbn [set_app regs]. unfold st1. rewrite regs_set_reg.
+    set (st2 := set_app st1 (remove i (app st1))).
+    assert (D2 : dead st2 i).
+    { split; [exact Hlt|]. split.
+      - cbn [st2 set_app app]. rewrite lookup_remove, N.eqb_refl. reflexivity.
+      - intro l. cbn [st2 set_app regs]. unfold st1. rewrite regs_set_reg.
         destruct (layer_eqb L l) eqn:E.
-        * rewrite lookup_remove, N.eqb_refl. reflexivity.
-        * apply Ho. intro E'. subst l. rewrite layer_eqb_refl in E. discriminate.
+        + rewrite lookup_remove, N.eqb_refl. reflexivity.
+        + apply Ho. intro E'. subst l. rewrite layer_eqb_refl in E. discriminate. }
+    set (st3 := fun rt' =>
+      set_reg (set_app st2 ((i, mkentry r hs he rt') :: app st2)) L
+              ((i, mkentry r true true no_retry) :: regs st2 L)).
+    assert (P3 : forall rt', pending rt' (st3 rt')).
+    { intro rt'. split; [exact Hlt|]. split; [|split].
+      - cbn [st3 set_reg set_app app]. rewrite lookup_cons, N.eqb_refl. reflexivity.
+      - unfold st3. rewrite regs_set_reg, layer_eqb_refl, lookup_cons, N.eqb_refl. reflexivity.
+      - intros l Hl. unfold st3. rewrite regs_set_reg.
+        rewrite layer_eqb_neq by (intro E'; apply Hl; symmetry; exact E').
+        cbn [set_app regs]. apply D2. }
+    assert (TI : forall w,
+      to_interface c st1 i (typ_of w) =
+      if cb_flag hs he w then
+        match next_retry hs he rt w with
+        | Some rt' => (st3 rt', [EvIface i (typ_of w); EvApp i w r; EvSent i])
+        | None => (st2, [EvIface i (typ_of w); EvApp i w r])
+        end
+      else (st2, [EvIface i (typ_of w)])).
+    { intro w. unfold to_interface.
+      assert (IC : iconsumes c (typ_of w) = true).
+      { unfold iconsumes. destruct (strict_iface c), w; reflexivity. }
+      rewrite IC. change (lookup i (app st1)) with (lookup i (app st)). rewrite Ha.
+      cbn [ehs ehe ert ereq].
+      replace (which_of (typ_of w)) with (Some w) by (destruct w; reflexivity).
+      destruct (cb_flag hs he w); [|reflexivity].
+      rewrite Hlatei. destruct (next_retry hs he rt w) as [rt'|]; [|reflexivity].
+      unfold reissue. cbn [rorigin r]. rewrite HR. reflexivity. }
+    unfold try_layer, consumes. rewrite Hstrict, Ht, Hr, Hlate. cbn [ehs ehe]. fold st1.
+    unfold fire. cbn [ereq rorigin r].
+    unfold reply_events, after_reply.
+    destruct t; try discriminate; cbn [which_of].
+    - rewrite (TI Success). cbn [typ_of cb_flag].
+      destruct hs; [|exists st2; split; [reflexivity|exact D2]].
+      destruct (next_retry true he rt Success) as [rt'|].
+      + exists (st3 rt'). split; [reflexivity|apply P3].
+      + exists st2. split; [reflexivity|exact D2].
+    - rewrite (TI Error). cbn [typ_of cb_flag].
+      destruct he; [|exists st2; split; [reflexivity|exact D2]].
+      destruct (next_retry hs true rt Error) as [rt'|].
+      + exists (st3 rt'). split; [reflexivity|apply P3].
+      + exists st2. split; [reflexivity|exact D2].
   Qed.
 
-  Lemma proto_recv_pending ls : forall st t,
-    pending st -> is_reply t = true -> NoDup ls -> In L ls ->
+  Lemma proto_recv_pending ls : forall st rt t,
+    pending rt st -> is_reply t = true -> NoDup ls -> In L ls ->
     (forall l, In l ls -> In l proto_order) ->
-    exists st', proto_recv c st ls i t (shape_of k) = (st', EvIface i t :: cb_events t) /\
-                dead st' i.
+    exists st', proto_recv c st ls i t (shape_of k) = (st', reply_events rt t) /\
+                settled (after_reply rt t) st'.
   Proof.
-    induction ls as [|l ls IH]; intros st t P Ht ND Hin Hsub; [contradiction|].
+    induction ls as [|l ls IH]; intros st rt t P Ht ND Hin Hsub; [contradiction|].
     cbn [proto_recv]. inversion ND as [|x xs Hnotin ND']; subst.
     destruct (layer_eqb l L) eqn:E.
     - apply layer_eqb_eq in E. subst l.
-      destruct (try_layer_pending st t P Ht) as [st' [E1 D]]. rewrite E1.
+      destruct (try_layer_pending st rt t P Ht) as [st' [E1 D]]. rewrite E1.
       exists st'. split; [|exact D].
       rewrite proto_recv_skip; [rewrite app_nil_r; reflexivity|exact Ht| |exact Hnotin|].
       + intros l' Hl'. apply Hsub. right. exact Hl'.
-      + intros l' _. apply D.
+      + exact (settled_others _ _ D).
     - assert (Hl : l <> L).
       { intro E'. subst l. rewrite layer_eqb_refl in E. discriminate. }
-      destruct P as [Hlt [Ha [Hr Ho]]].
+      pose proof P as [Hlt [Ha [Hr Ho]]].
       rewrite try_layer_unreg by (apply Ho; exact Hl).
       rewrite hsilent_handler; [|exact Ht|apply Hsub; left; reflexivity|exact Hl].
-      destruct (IH st t) as [st' [E1 D]].
-      + repeat split; assumption.
-      + exact Ht.
-      + exact ND'.
+      destruct (IH st rt t P Ht ND') as [st' [E1 D]].
       + destruct Hin as [Hin|Hin]; [contradiction|exact Hin].
       + intros l' Hl'. apply Hsub. right. exact Hl'.
       + rewrite E1. exists st'. split; [reflexivity|exact D].
   Qed.
 
-  Lemma deliver_pending st t :
-    pending st -> is_reply t = true ->
-    exists st', deliver c st i t (shape_of k) = (st', EvIface i t :: cb_events t) /\ dead st' i.
+  Lemma deliver_pending st rt t :
+    pending rt st -> is_reply t = true ->
+    exists st', deliver c st i t (shape_of k) = (st', reply_events rt t) /\
+                settled (after_reply rt t) st'.
   Proof.
     intros P Ht. destruct L_not_axolotl as [N1 [N2 N3]].
     pose proof P as [_ [_ [_ Ho]]].
@@ -659,22 +812,22 @@ Section Pending.
       by (apply Ho; intro E; symmetry in E; contradiction).
     cbv beta iota.
     rewrite (try_layer_unreg c st LRecv) by (apply Ho; intro E; symmetry in E; contradiction).
-    destruct (proto_recv_pending proto_order st t P Ht NoDup_proto_order (in_proto_In L HL))
+    destruct (proto_recv_pending proto_order st rt t P Ht NoDup_proto_order (in_proto_In L HL))
       as [st' [E D]]; [auto|].
     rewrite E. exists st'. split; [reflexivity|exact D].
   Qed.
 
-  Lemma app_cbs_reply t :
-    is_reply t = true ->
-    app_cbs i (EvIface i t :: cb_events t) =
-    expected hs he (match t with TResult => Some Success | _ => Some Error end) r.
+  Lemma app_cbs_reply rt t w :
+    which_of t = Some w ->
+    app_cbs i (reply_events rt t) = if cb_flag hs he w then [(w, r)] else [].
   Proof.
-    intro Ht. unfold app_cbs, cb_events, expected.
-    destruct t; try discriminate; cbn [flat_map];
-      [destruct hs|destruct he]; cbn [flat_map app]; rewrite ?N.eqb_refl; reflexivity.
+    intro Hw. unfold app_cbs, reply_events. rewrite Hw. cbn [flat_map app].
+    destruct (cb_flag hs he w); [|reflexivity].
+    cbn [flat_map]. rewrite N.eqb_refl.
+    destruct (next_retry hs he rt w); reflexivity.
   Qed.
 
-  Lemma pending_grows st st' : grows st st' -> pending st -> pending st'.
+  Lemma pending_grows rt st st' : grows st st' -> pending rt st -> pending rt st'.
   Proof.
     intros G [Hlt [Ha [Hr Ho]]]. assert (Hi : i <> next st) by lia.
     split; [rewrite (gr_next _ _ G); lia|]. split; [|split].
@@ -683,44 +836,50 @@ Section Pending.
     - intros l Hl. rewrite (gr_regs _ _ G l i Hi). apply Ho, Hl.
   Qed.
 
-  Lemma pending_run h : forall st,
-    pending st -> shaped i (shape_of k) h ->
-    app_cbs i (events c st h) = expected hs he (first_reply i h) r.
+  Lemma pending_run h : forall rt st,
+    pending rt st -> shaped i (shape_of k) h ->
+    app_cbs i (events c st h) = expected_seq i hs he r (Some rt) h.
   Proof.
-    induction h as [|o h IH]; intros st P Sh; [reflexivity|].
+    induction h as [|o h IH]; intros rt st P Sh; [reflexivity|].
     rewrite events_cons, app_cbs_app.
-    destruct o as [k' hs' he'|lk|j t sh|j]; cbn [step].
-    - destruct (request_events_no_cb i _ (app_request_events c st k' hs' he')) as [E _].
-      rewrite E. cbn [app first_reply]. apply IH; [|exact Sh].
+    destruct o as [k' hs' he' rt'|lk|j t sh|j]; cbn [step].
+    - destruct (request_events_no_cb i _ (app_request_events c st k' hs' he' rt')) as [E _].
+      rewrite E. cbn [app expected_seq]. apply IH; [|exact Sh].
       eapply pending_grows; [apply app_request_grows|exact P].
     - destruct (request_events_no_cb i _ (lib_request_events c st lk)) as [E _].
-      rewrite E. cbn [app first_reply]. apply IH; [|exact Sh].
+      rewrite E. cbn [app expected_seq]. apply IH; [|exact Sh].
       eapply pending_grows; [apply lib_request_grows|exact P].
-    - cbn [shaped] in Sh. destruct Sh as [Sh1 Sh2].
+    - cbn [shaped] in Sh. destruct Sh as [Sh1 Sh2]. cbn [expected_seq].
       destruct (N.eqb i j) eqn:Eij.
       + apply N.eqb_eq in Eij. subst j.
         destruct (is_reply t) eqn:Ht.
         * rewrite (Sh1 eq_refl eq_refl).
-          destruct (deliver_pending st t P Ht) as [st' [E D]]. rewrite E. cbn [fst snd].
-          destruct (dead_run c h st' i D) as [F _]. rewrite F, app_nil_r.
-          rewrite app_cbs_reply by exact Ht.
-          destruct t; try discriminate; cbn [first_reply]; rewrite N.eqb_refl; reflexivity.
+          destruct (deliver_pending st rt t P Ht) as [st' [E D]]. rewrite E. cbn [fst snd].
+          assert (Hw : exists w, which_of t = Some w) by (destruct t; try discriminate; eexists; reflexivity).
+          destruct Hw as [w Hw]. rewrite Hw, (app_cbs_reply rt t w Hw).
+          f_equal. unfold after_reply in D. rewrite Hw in D.
+          destruct (next_retry hs he rt w) as [rt2|]; cbn [settled] in D.
+          -- apply IH; assumption.
+          -- rewrite expected_seq_none. apply (dead_run c h st' i D).
         * rewrite nonreply_ordinary_thm by assumption. cbn [fst snd].
           destruct (ordinary_no_cb i i t sh) as [E _]. rewrite E. cbn [app].
-          rewrite (IH st P Sh2).
-          destruct t; try discriminate; reflexivity.
+          replace (which_of t) with (@None which) by (destruct t; try discriminate; reflexivity).
+          apply IH; assumption.
       + assert (Hij : i <> j) by (apply N.eqb_neq; exact Eij).
         destruct (deliver_good c st j t sh) as [S F].
         destruct (cbs_about_other i j _ Hij F) as [E _]. rewrite E. cbn [app].
-        rewrite IH; [|  |exact Sh2].
-        * destruct t; cbn [first_reply]; rewrite ?Eij; reflexivity.
-        * destruct P as [Hlt [Ha [Hr Ho]]].
-          destruct (shrinks_other _ _ _ S i Hij) as [A1 A2].
-          split; [rewrite (sh_next _ _ _ S); exact Hlt|]. split; [|split].
-          -- rewrite A1. exact Ha.
-          -- rewrite A2. exact Hr.
-          -- intros l Hl. rewrite A2. apply Ho, Hl.
-    - cbn [fst snd app first_reply]. apply IH; assumption.
+        replace (match which_of t with
+                 | Some _ => expected_seq i hs he r (Some rt) h
+                 | None => expected_seq i hs he r (Some rt) h
+                 end) with (expected_seq i hs he r (Some rt) h) by (destruct (which_of t); reflexivity).
+        apply IH; [|exact Sh2].
+        destruct P as [Hlt [Ha [Hr Ho]]].
+        destruct (shrinks_other _ _ _ S i Hij) as [A1 A2].
+        split; [rewrite (sh_next _ _ _ S); exact Hlt|]. split; [|split].
+        -- rewrite A1. exact Ha.
+        -- rewrite A2. exact Hr.
+        -- intros l Hl. rewrite A2. apply Ho, Hl.
+    - cbn [fst snd app expected_seq]. apply IH; assumption.
   Qed.
 End Pending.
 
@@ -736,51 +895,105 @@ Proof.
   exists l. repeat split; assumption.
 Qed.
 
-Lemma cfg_ok_kind c k : cfg_ok c = true -> in_domain k = true -> kind_ok c k = true.
+Lemma cfg_ok_parts c :
+  cfg_ok c = true ->
+  strict_reply c = true /\ late_delete c = false /\ late_delete_iface c = false /\
+  forall k, in_domain k = true -> kind_ok c k = true.
 Proof.
-  unfold cfg_ok. intros H D. apply andb_prop in H. destruct H as [_ H].
-  rewrite forallb_forall in H. specialize (H k (all_akinds_complete k)).
-  rewrite D in H. exact H.
+  unfold cfg_ok. intro H.
+  apply andb_prop in H. destruct H as [H H4].
+  apply andb_prop in H. destruct H as [H H3].
+  apply andb_prop in H. destruct H as [H1 H2].
+  repeat split; try assumption.
+  - destruct (late_delete c); [discriminate|reflexivity].
+  - destruct (late_delete_iface c); [discriminate|reflexivity].
+  - intros k D. rewrite forallb_forall in H4. specialize (H4 k (all_akinds_complete k)).
+    rewrite D in H4. exact H4.
 Qed.
 
-Lemma cfg_ok_strict c : cfg_ok c = true -> strict_reply c = true.
-Proof. unfold cfg_ok. intro H. apply andb_prop in H. apply H. Qed.
+Lemma cfg_ok_kind c k : cfg_ok c = true -> in_domain k = true -> kind_ok c k = true.
+Proof. intros H D. apply (cfg_ok_parts c H); exact D. Qed.
 
-(* THE correlation theorem, application level.
-   For every routing table in which kind k is transported faithfully, every history
-   pre ++ [request of kind k] ++ post: the application callbacks invoked for the id the request
-   got are exactly: [success, with the original request] if the first result/error reply to
-   that id after the request is a result (and a success callback was given), [error, with the
-   original request] if it is an error (and an error callback was given), nothing otherwise --
-   whatever else happens before, in between and after (other requests, replies to other ids,
-   duplicates, replies arriving before the request, get/set stanzas with the same id).       *)
-Theorem app_exactly_once_kind_thm : forall c k,
-  strict_reply c = true -> kind_ok c k = true ->
-  forall pre hs he post,
+Lemma cfg_ok_strict c : cfg_ok c = true -> strict_reply c = true.
+Proof. intro H. apply (cfg_ok_parts c H). Qed.
+
+(* THE correlation theorem, application level, WITH retries issued from inside callbacks.
+   For every routing table in which kind k is transported faithfully and both registries remove
+   the entry before dispatching, every history pre ++ [request of kind k] ++ post, where the
+   request's callbacks may re-issue the SAME request (same id) up to [budget rt] times (on
+   success if [rs rt], on error if [re rt]): the application callbacks invoked for the request's
+   id are exactly [expected_seq]: every issue and every re-issue gets exactly the callback of the
+   first result/error reply after THAT issue, with the original request attached -- whatever
+   else happens before, in between and after. *)
+Theorem app_exactly_once_retry_kind_thm : forall c k,
+  strict_reply c = true -> late_delete c = false -> late_delete_iface c = false ->
+  kind_ok c k = true ->
+  forall pre hs he rt post,
   let i := next (final c init pre) in
   shaped i (shape_of k) post ->
-  app_cbs i (events c init (pre ++ AppRequest k hs he :: post)) =
-  expected hs he (first_reply i post) (mkreq i (OApp k)).
+  app_cbs i (events c init (pre ++ AppRequest k hs he rt :: post)) =
+  expected_seq i hs he (mkreq i (OApp k)) (Some rt) post.
 Proof.
-  intros c k Hs Hk pre hs he post i Sh.
+  intros c k Hs Hl Hli Hk pre hs he rt post i Sh.
   destruct (kind_ok_route c k Hk) as [L [HR [HL HS]]].
   rewrite events_app, app_cbs_app.
   pose proof (final_inv c pre init inv_init) as I. fold i in I.
   destruct (future_run c pre init i inv_init) as [E _]; [subst i; lia|]. rewrite E. cbn [app].
   rewrite events_cons, app_cbs_app. cbn [step].
-  destruct (request_events_no_cb i _ (app_request_events c (final c init pre) k hs he)) as [E2 _].
+  destruct (request_events_no_cb i _ (app_request_events c (final c init pre) k hs he rt)) as [E2 _].
   rewrite E2. cbn [app].
-  apply (pending_run c i k hs he L Hs HL HS); [|exact Sh].
-  (* the state right after the request is pending *)
+  apply (pending_run c i k hs he L Hs Hl Hli HR HL HS); [|exact Sh].
   set (stp := final c init pre) in *.
   assert (U : unregistered stp i) by (apply inv_unregistered; [exact I|subst i; lia]).
   destruct U as [Ua Ur].
-  unfold app_request. rewrite HR. cbn [fst]. fold i.
-  split; [cbn [set_reg next]; lia|]. split; [|split].
-  - cbn [set_reg app]. rewrite lookup_cons, N.eqb_refl. reflexivity.
+  unfold app_request, reissue. cbn [rorigin]. rewrite HR. cbn [fst]. fold i.
+  split; [cbn [set_reg set_app next]; lia|]. split; [|split].
+  - cbn [set_reg set_app app]. rewrite lookup_cons, N.eqb_refl. reflexivity.
   - rewrite regs_set_reg, layer_eqb_refl, lookup_cons, N.eqb_refl. reflexivity.
-  - intros l Hl. rewrite regs_set_reg. rewrite layer_eqb_neq by (intro E'; apply Hl; symmetry; exact E').
-    cbn [regs]. apply Ur.
+  - intros l Hl'. rewrite regs_set_reg.
+    rewrite layer_eqb_neq by (intro E'; apply Hl'; symmetry; exact E').
+    cbn [set_app regs]. apply Ur.
+Qed.
+
+Theorem app_exactly_once_retry_thm : forall c, cfg_ok c = true ->
+  forall pre k hs he rt post,
+  in_domain k = true ->
+  let i := next (final c init pre) in
+  shaped i (shape_of k) post ->
+  app_cbs i (events c init (pre ++ AppRequest k hs he rt :: post)) =
+  expected_seq i hs he (mkreq i (OApp k)) (Some rt) post.
+Proof.
+  intros c H pre k hs he rt post D.
+  destruct (cfg_ok_parts c H) as [H1 [H2 [H3 H4]]].
+  apply app_exactly_once_retry_kind_thm; auto.
+Qed.
+
+(* without retries the expected sequence is the single callback of the first reply *)
+Lemma expected_seq_no_retry i hs he r h :
+  expected_seq i hs he r (Some no_retry) h = expected hs he (first_reply i h) r.
+Proof.
+  induction h as [|o h IH]; [reflexivity|].
+  destruct o as [k' hs' he' rt'|lk|j t sh|j]; cbn [expected_seq first_reply]; try exact IH.
+  destruct t; cbn [which_of]; try exact IH.
+  - destruct (N.eqb i j); [|exact IH].
+    unfold next_retry. cbn [retry_flag no_retry rs]. rewrite andb_false_r.
+    rewrite expected_seq_none, app_nil_r. reflexivity.
+  - destruct (N.eqb i j); [|exact IH].
+    unfold next_retry. cbn [retry_flag no_retry re]. rewrite andb_false_r.
+    rewrite expected_seq_none, app_nil_r. reflexivity.
+Qed.
+
+Theorem app_exactly_once_kind_thm : forall c k,
+  strict_reply c = true -> late_delete c = false -> late_delete_iface c = false ->
+  kind_ok c k = true ->
+  forall pre hs he post,
+  let i := next (final c init pre) in
+  shaped i (shape_of k) post ->
+  app_cbs i (events c init (pre ++ AppRequest k hs he no_retry :: post)) =
+  expected hs he (first_reply i post) (mkreq i (OApp k)).
+Proof.
+  intros c k H1 H2 H3 H4 pre hs he post i Sh.
+  rewrite <- expected_seq_no_retry. apply app_exactly_once_retry_kind_thm; assumption.
 Qed.
 
 Theorem app_exactly_once_thm : forall c, cfg_ok c = true ->
@@ -788,12 +1001,11 @@ Theorem app_exactly_once_thm : forall c, cfg_ok c = true ->
   in_domain k = true ->
   let i := next (final c init pre) in
   shaped i (shape_of k) post ->
-  app_cbs i (events c init (pre ++ AppRequest k hs he :: post)) =
+  app_cbs i (events c init (pre ++ AppRequest k hs he no_retry :: post)) =
   expected hs he (first_reply i post) (mkreq i (OApp k)).
 Proof.
-  intros c H pre k hs he post D. apply app_exactly_once_kind_thm.
-  - apply cfg_ok_strict, H.
-  - apply cfg_ok_kind; assumption.
+  intros c H pre k hs he post D i Sh.
+  rewrite <- expected_seq_no_retry. apply app_exactly_once_retry_thm; assumption.
 Qed.
 
 (* ------------------------------------------------------------------ library-internal requests *)
@@ -812,7 +1024,7 @@ Section PendingLib.
   Definition pendingL (st : state) : Prop :=
     (i < next st)%N /\
     lookup i (app st) = None /\
-    lookup i (regs st L) = Some (mkentry r s e) /\
+    lookup i (regs st L) = Some (mkentry r s e no_retry) /\
     forall l, l <> L -> lookup i (regs st l) = None.
 
   Definition lib_events (t : ityp) : list event :=
@@ -832,8 +1044,8 @@ Section PendingLib.
     exists (set_reg st L (remove i (regs st L))). split.
     - unfold try_layer, consumes. rewrite Hstrict, Ht, Hr. cbn [ehs ehe]. unfold lib_events, fire.
       cbn [ereq rorigin r].
-      destruct t; try discriminate; [destruct s|destruct e]; try reflexivity;
-        destruct lk; try reflexivity; contradiction.
+      destruct t; try discriminate; [destruct s|destruct e]; destruct (late_delete c);
+        destruct lk; try contradiction; reflexivity.
     - split; [exact Hlt|]. split; [exact Ha|].
       intro l. rewrite regs_set_reg. destruct (layer_eqb L l) eqn:E.
       + rewrite lookup_remove, N.eqb_refl. reflexivity.
@@ -935,8 +1147,8 @@ Section PendingLib.
   Proof.
     induction h as [|o h IH]; intros st P; [reflexivity|].
     rewrite events_cons, lib_cbs_app.
-    destruct o as [k' hs' he'|lk'|j t sh|j]; cbn [step].
-    - destruct (request_events_no_cb i _ (app_request_events c st k' hs' he')) as [_ E].
+    destruct o as [k' hs' he' rt'|lk'|j t sh|j]; cbn [step].
+    - destruct (request_events_no_cb i _ (app_request_events c st k' hs' he' rt')) as [_ E].
       rewrite E. cbn [app first_reply]. apply IH.
       eapply pendingL_grows; [apply app_request_grows|exact P].
     - destruct (request_events_no_cb i _ (lib_request_events c st lk')) as [_ E].
@@ -1026,13 +1238,13 @@ Qed.
 
 Lemma step_issued c st o :
   issued_ids (snd (step c st o)) =
-  match o with AppRequest _ _ _ | LibRequest _ => [next st] | _ => [] end /\
+  match o with AppRequest _ _ _ _ | LibRequest _ => [next st] | _ => [] end /\
   next (fst (step c st o)) =
-  match o with AppRequest _ _ _ | LibRequest _ => N.succ (next st) | _ => next st end.
+  match o with AppRequest _ _ _ _ | LibRequest _ => N.succ (next st) | _ => next st end.
 Proof.
-  destruct o as [k hs he|lk|j t sh|j]; cbn [step].
-  - split; [|apply (gr_next _ _ (app_request_grows c st k hs he))].
-    unfold app_request. destruct (app_route c k); reflexivity.
+  destruct o as [k hs he rt|lk|j t sh|j]; cbn [step].
+  - split; [|apply (gr_next _ _ (app_request_grows c st k hs he rt))].
+    unfold app_request, reissue. cbn [rorigin]. destruct (app_route c k); reflexivity.
   - split; [|apply (gr_next _ _ (lib_request_grows c st lk))].
     unfold lib_request. destruct (lib_route c lk) as [l [s e]]. reflexivity.
   - destruct (deliver_good c st j t sh) as [S F]. split.
@@ -1079,7 +1291,7 @@ Definition route_repaired (k : akind) : route :=
   end.
 Definition lib_route_repaired (lk : lkind) : layer * (bool * bool) :=
   match lk with LKPing => (LIq, (true, true)) | _ => lib_route_unrepaired lk end.
-Definition cfg_repaired : cfg := mkcfg route_repaired lib_route_repaired true true.
+Definition cfg_repaired : cfg := mkcfg route_repaired lib_route_repaired true true false false.
 
 Example cfg_repaired_ok : cfg_ok cfg_repaired = true.
 Proof. vm_compute. reflexivity. Qed.
@@ -1087,15 +1299,31 @@ Proof. vm_compute. reflexivity. Qed.
 (* a non-trivial history satisfying every hypothesis: replies before the request, interleaved
    requests, a get with the pending id, error first then a late result, a duplicate *)
 Example nonvacuous :
-  let pre := [Deliver 2 TResult ShPlain; AppRequest KSync true true] in
+  let pre := [Deliver 2 TResult ShPlain; AppRequest KSync true true no_retry] in
   let post := [LibRequest LKFetchSend; Deliver 2 TGet ShSPing; Deliver 1 TResult ShSync;
                Deliver 2 TError ShPlain; Deliver 2 TResult ShPlain; Deliver 2 TError ShPlain] in
   next (final cfg_repaired init pre) = 2%N /\
   shaped 2 (shape_of KPing) post /\
-  app_cbs 2 (events cfg_repaired init (pre ++ AppRequest KPing true true :: post)) =
+  app_cbs 2 (events cfg_repaired init (pre ++ AppRequest KPing true true no_retry :: post)) =
   [(Error, mkreq 2 (OApp KPing))] /\
-  app_cbs 1 (events cfg_repaired init (pre ++ AppRequest KPing true true :: post)) =
+  app_cbs 1 (events cfg_repaired init (pre ++ AppRequest KPing true true no_retry :: post)) =
   [(Success, mkreq 1 (OApp KSync))].
+Proof. vm_compute. repeat split; intros; try reflexivity; discriminate. Qed.
+
+(* ... and with retries: the error callback re-issues the request (budget 2, on error only):
+   error -> retry, duplicate error answers the retry -> second retry, result answers that one,
+   later replies are ordinary; the stanza went down three times *)
+Example nonvacuous_retry :
+  let rt := mkretry false true 2 in
+  let post := [Deliver 1 TError ShPlain; Deliver 1 TGet ShSPing; Deliver 1 TError ShPlain;
+               Deliver 1 TResult ShPlain; Deliver 1 TError ShPlain; Deliver 1 TResult ShPlain] in
+  let r := mkreq 1 (OApp KLastSeen) in
+  shaped 1 (shape_of KLastSeen) post /\
+  expected_seq 1 true true r (Some rt) post = [(Error, r); (Error, r); (Success, r)] /\
+  app_cbs 1 (events cfg_repaired init ([] ++ AppRequest KLastSeen true true rt :: post)) =
+  [(Error, r); (Error, r); (Success, r)] /\
+  length (filter (fun e => match e with EvSent 1 => true | _ => false end)
+                 (events cfg_repaired init (AppRequest KLastSeen true true rt :: post))) = 3%nat.
 Proof. vm_compute. repeat split; intros; try reflexivity; discriminate. Qed.
 
 (* On the tree as pinned BEFORE the fixes the property is false; the witnesses are kept so
@@ -1103,7 +1331,7 @@ Proof. vm_compute. repeat split; intros; try reflexivity; discriminate. Qed.
    and as a failing history in the harness (corpus/C08). *)
 Definition refutes (c : cfg) (k : akind) (post : list op) : Prop :=
   shaped 1 (shape_of k) post /\
-  app_cbs 1 (events c init ([] ++ AppRequest k true true :: post)) <>
+  app_cbs 1 (events c init ([] ++ AppRequest k true true no_retry :: post)) <>
   expected true true (first_reply 1 post) (mkreq 1 (OApp k)).
 
 Lemma ping_error_refuted : refutes cfg_unrepaired KPing [Deliver 1 TError ShPlain].
@@ -1124,7 +1352,7 @@ Proof. split; (split; [cbn; auto|vm_compute; discriminate]). Qed.
 (* a get/set stanza carrying a pending id silently cancels the request (any kind) *)
 Lemma nonreply_consumes_refuted :
   refutes cfg_unrepaired KLastSeen [Deliver 1 TGet ShSPing; Deliver 1 TResult ShPlain] /\
-  refutes (mkcfg route_repaired lib_route_repaired false true) KLastSeen
+  refutes (mkcfg route_repaired lib_route_repaired false true false false) KLastSeen
           [Deliver 1 TSet ShPlain; Deliver 1 TResult ShPlain].
 Proof. split; (split; [cbn; intuition discriminate|vm_compute; discriminate]). Qed.
 
@@ -1133,3 +1361,32 @@ Lemma unrepaired_kinds :
   filter (fun k => in_domain k && negb (kind_ok cfg_unrepaired k)) all_akinds =
   [KPing; KGList; KGParts; KSync].
 Proof. vm_compute. reflexivity. Qed.
+
+(* Removing the registry entry AFTER the callback dispatch (seeded regression C08-1; either
+   level): the re-registration a retrying callback makes is deleted by the late removal, and
+   the reply to the retry reaches no callback.  Without retries the variant is indistinguishable. *)
+Definition refutes_retry (c : cfg) (k : akind) (rt : retry) (post : list op) : Prop :=
+  shaped 1 (shape_of k) post /\
+  app_cbs 1 (events c init ([] ++ AppRequest k true true rt :: post)) <>
+  expected_seq 1 true true (mkreq 1 (OApp k)) (Some rt) post.
+
+Definition cfg_late_proto : cfg := mkcfg route_repaired lib_route_repaired true true true false.
+Definition cfg_late_iface : cfg := mkcfg route_repaired lib_route_repaired true true false true.
+
+Lemma delete_after_dispatch_refuted :
+  (* retry on error, then the result for the retry is lost *)
+  refutes_retry cfg_late_proto KLastSeen (mkretry false true 1)
+                [Deliver 1 TError ShPlain; Deliver 1 TResult ShPlain] /\
+  (* retry on success (poll again), second result lost *)
+  refutes_retry cfg_late_proto KGList (mkretry true false 1)
+                [Deliver 1 TResult ShPlain; Deliver 1 TResult ShPlain] /\
+  (* the same defect in the interface layer's registry *)
+  refutes_retry cfg_late_iface KLastSeen (mkretry false true 1)
+                [Deliver 1 TError ShPlain; Deliver 1 TResult ShPlain] /\
+  (* after the lost reply the application entry is still registered: the request hangs *)
+  lookup 1 (app (final cfg_late_proto init
+                   [AppRequest KLastSeen true true (mkretry false true 1);
+                    Deliver 1 TError ShPlain; Deliver 1 TResult ShPlain])) <> None.
+Proof.
+  repeat split; try (cbn; intuition discriminate); vm_compute; discriminate.
+Qed.
